@@ -15,23 +15,27 @@ for q in ("TimePoint._copy", "TimePoint.get_is_calendar_date",
           "TimePoint.get_week_date", "TimePoint.get_hour_minute_second",
           "TimePoint.get_second_of_day", "TimePoint.get_time_zone_utc",
           "TimePoint.get_time_zone_offset", "TimePoint.get_props",
-          "TimePoint.to_utc", "TimePoint.to_local_time_zone",
           "TimePoint.__eq__", "TimePoint.__lt__", "TimePoint.__le__",
           "TimePoint.__gt__", "TimePoint.__ge__"):
     contract("data:" + q, inline=True)
 
 
 def havoc_self_numeric(E, st, env):
+    """After _tick_over the point is normal: integral time fields are built as
+    ToReal(Int) symbols (their integrality is part of the assumed ensures)."""
+    from .shapes import normal_time_fields
     h = st.obj(env["self"])
     E.fresh_n += 1
+    nt = normal_time_fields(E, h.slots, "tick!%d" % E.fresh_n)
     for k in NUM_SLOTS:
         if h.slots.get(k) is not None:
-            h.slots[k] = E.fresh_like(h.slots[k], "tick!%d.%s" % (E.fresh_n, k))
+            h.slots[k] = nt[k] if k in nt else \
+                E.fresh_like(h.slots[k], "tick!%d.%s" % (E.fresh_n, k))
 
 
-def tp_case(date, time, extra=None):
+def tp_case(date, time, extra=None, integral=True):
     def build(E, st):
-        d = {"self": mk_timepoint(E, st, "self", date, time)}
+        d = {"self": mk_timepoint(E, st, "self", date, time, integral=integral)}
         if extra:
             d.update(extra(E, st))
         return d
@@ -78,7 +82,7 @@ contract(
         5: LoopSpec(invariant=_UNCH + [
             "num_days == entry(num_days) + i", "num_days < self._day_of_month"]),
     },
-    cases=[Case("cal", tp_case("cal", "hms"))])
+    cases=[Case("cal", tp_case("cal", "hms", integral=False))])
 
 # ---------------------------------------------------------------- _tick_over
 _ABS = "date_abs(self) == entry(date_abs(self))"
@@ -111,7 +115,8 @@ contract(
                                "self._month_of_year == entry(self._month_of_year)"],
                     decreases="self._month_of_year"),
     },
-    cases=[Case("%s-%s" % (d, t), tp_case(d, t)) for d in DATES for t in TIMES])
+    cases=[Case("%s-%s" % (d, t), tp_case(d, t, integral=False))
+           for d in DATES for t in TIMES])
 
 
 # ---------------------------------------------------------------- __add__ (Duration)
@@ -180,16 +185,239 @@ def sub_cases():
     return out
 
 
+SUB_TP_ENS = [
+    "fresh(result)", "classname(result) == 'Duration'",
+    "not in_weeks(result) and d_years(result) == 0 and d_months(result) == 0",
+    "dlen(result) == instant(self) - instant(other)",
+    "implies(instant(self) >= instant(other), d_days(result) >= 0)",
+    "implies(instant(self) >= instant(other),"
+    " 0 <= d_hours(result) and d_hours(result) < 24)",
+    "implies(instant(self) >= instant(other),"
+    " 0 <= d_minutes(result) and d_minutes(result) < 60)",
+    "implies(instant(self) >= instant(other),"
+    " 0 <= d_seconds(result) and d_seconds(result) < 60)",
+    "implies(instant(self) < instant(other), d_days(result) <= 0)",
+    "implies(instant(self) < instant(other),"
+    " 0 >= d_hours(result) and d_hours(result) > -24)",
+    "implies(instant(self) < instant(other),"
+    " 0 >= d_minutes(result) and d_minutes(result) > -60)",
+    "implies(instant(self) < instant(other),"
+    " 0 >= d_seconds(result) and d_seconds(result) > -60)",
+    "unchanged(self)", "unchanged(other)"]
+SUB_DUR_ENS = ["fresh(result)"] + SAME_SHAPE + SAME_ZONE + [
+    "valid_date(result)",
+    "implies(d_exact(other), time_normal(result))",
+    "implies(d_exact(other), instant(result) == instant(self) - dlen(other))"]
+
+
+def sub_result(E, st, env):
+    if is_duration(E, st, env["other"]):
+        return fresh_timepoint_like(E, st, env["self"], "diff")
+    return fresh_duration(E, st, "unit", "diff")
+
+
+def sub_tp_cases():
+    out = []
+    for d1 in DATES:
+        for t1 in TIMES:
+            for d2 in DATES:
+                for t2 in TIMES:
+                    def build(E, st, d1=d1, t1=t1, d2=d2, t2=t2):
+                        return {"self": mk_timepoint(E, st, "self", d1, t1),
+                                "other": mk_timepoint(E, st, "other", d2, t2)}
+                    out.append(Case("tp:%s-%s/%s-%s" % (d1, t1, d2, t2), build,
+                                    requires=["normal24(other)"], ensures=SUB_TP_ENS))
+    out.append(Case("tp:same-object", lambda E, st: (
+        lambda r: {"self": r, "other": r})(mk_timepoint(E, st, "self", "cal", "hms")),
+        ensures=["dlen(result) == 0", "fresh(result)"]))
+    return out
+
+
 contract(
-    "data:TimePoint.__sub__",
+    "data:TimePoint.__sub__", opaque=["dby"],
     applicable=lambda E, st, env: is_full_tp(E, st, env["self"]) and
-    is_duration(E, st, env["other"]),
+    (is_duration(E, st, env["other"]) or is_full_tp(E, st, env["other"])),
+    inline_fallback=True, recursive_ok=True,
+    cuts=[("my_hour, my_minute, my_second = ", [
+        "diff_day == date_abs(this) - date_abs(other)",
+        "instant(this) == instant(self)",
+        "local_instant(this) - local_instant(other) == old(instant(self) - instant(other))"])],
+    requires=["normal24(self)",
+              "normal24(other) if classname(other) == 'TimePoint' else True"],
+    result=sub_result, fresh_result=True,
+    ensures=["(%s) if classname(other) == 'TimePoint' else True" % e for e in SUB_TP_ENS] +
+            ["(%s) if classname(other) != 'TimePoint' else True" % e for e in SUB_DUR_ENS],
+    cases=[Case(c.name, c.build, ensures=SUB_DUR_ENS) for c in sub_cases()] + sub_tp_cases(),
+    note="TimePoint - Duration == TimePoint + (-1 * Duration) by construction; "
+         "TimePoint - TimePoint: exact Duration of the signed distance (C04)")
+
+
+# ---------------------------------------------------------------- zones (C06)
+def tz_cases(with_dest=True):
+    out = []
+    for d in DATES:
+        for t in TIMES:
+            def build(E, st, d=d, t=t):
+                r = {"self": mk_timepoint(E, st, "self", d, t)}
+                if with_dest:
+                    r["dest_time_zone"] = mk_timezone(E, st, "dest_time_zone")
+                return r
+            out.append(Case("%s-%s" % (d, t), build))
+    return out
+
+
+def tz_result(E, st, env):
+    r = fresh_timepoint_like(E, st, env["self"], "rezoned")
+    st.obj(r).slots["_time_zone"] = env["dest_time_zone"]
+    return r
+
+
+SAME_SHAPE_R = SAME_SHAPE
+contract(
+    "data:TimePoint.to_time_zone",
+    applicable=lambda E, st, env: is_full_tp(E, st, env["self"]) and
+    isinstance(env["dest_time_zone"], Ref) and
+    st.obj(env["dest_time_zone"]).slots.get("_unknown") is False,
+    inline_fallback=True,
+    requires=["normal24(self)", "tz_ok(dest_time_zone)"],
+    result=lambda E, st, env: tz_result(E, st, env), fresh_result=True,
+    ensures=["fresh(result)"] + SAME_SHAPE + [
+        "result._time_zone is dest_time_zone",
+        "valid_date(result)", "time_normal24(result)",
+        "instant(result) == instant(self)",
+        "unchanged(self)", "unchanged(dest_time_zone)"],
+    cases=tz_cases() + [
+        Case("unknown-dest", lambda E, st: {
+            "self": mk_timepoint(E, st, "self", "cal", "hms"),
+            "dest_time_zone": mk_timezone(E, st, "dest_time_zone", unknown=True)},
+            ensures=["result is self", "unchanged(self)"], fresh_result=False)],
+    note="destination zone known; an unknown destination returns self (inlined)")
+
+contract(
+    "data:TimePoint.to_utc", use_at_calls=False,
+    requires=["normal24(self)"],
+    ensures=["fresh(result)"] + SAME_SHAPE + [
+        "result._time_zone._hours == 0 and result._time_zone._minutes == 0"
+        " and result._time_zone._unknown is False",
+        "valid_date(result)", "time_normal24(result)",
+        "instant(result) == instant(self)", "unchanged(self)"],
+    cases=tz_cases(False))
+REG_TO_UTC = True
+
+_OFF = ("(-time.altzone if (time.localtime().tm_isdst == 1 and time.daylight)"
+        " else -time.timezone)")
+contract(
+    "data:TimePoint.to_local_time_zone", use_at_calls=False,
+    requires=["normal24(self)",
+              "timezone.time.timezone % 60 == 0 and timezone.time.altzone % 60 == 0",
+              "-86400 <= timezone.time.timezone and timezone.time.timezone <= 86400",
+              "-86400 <= timezone.time.altzone and timezone.time.altzone <= 86400"],
+    ensures=["fresh(result)"] + SAME_SHAPE + [
+        "3600 * result._time_zone._hours + 60 * result._time_zone._minutes == "
+        "(-timezone.time.altzone if (timezone.time.localtime().tm_isdst == 1"
+        " and timezone.time.daylight) else -timezone.time.timezone)",
+        "tz_ok(result._time_zone)",
+        "valid_date(result)", "time_normal24(result)",
+        "instant(result) == instant(self)", "unchanged(self)"],
+    cases=tz_cases(False))
+
+
+# ---------------------------------------------------------------- comparison (C02)
+OPS = {"eq": "==", "lt": "<", "le": "<=", "gt": ">", "ge": ">="}
+
+
+def cmp_cases():
+    out = []
+    for op in OPS:
+        for d1 in DATES:
+            for t1 in TIMES:
+                for d2 in DATES:
+                    for t2 in TIMES:
+                        def build(E, st, d1=d1, t1=t1, d2=d2, t2=t2, op=op):
+                            return {"self": mk_timepoint(E, st, "self", d1, t1),
+                                    "other": mk_timepoint(E, st, "other", d2, t2),
+                                    "op": op}
+                        out.append(Case(
+                            "%s:%s-%s/%s-%s" % (op, d1, t1, d2, t2), build,
+                            ensures=["result == (instant(self) %s instant(other))" % OPS[op],
+                                     "unchanged(self)", "unchanged(other)"]))
+        # aliasing: a <op> a
+        out.append(Case("%s:same-object" % op, lambda E, st, op=op: (
+            lambda r: {"self": r, "other": r, "op": op})(
+                mk_timepoint(E, st, "self", "cal", "hms")),
+            ensures=["result == (%s)" % ("True" if op in ("eq", "le", "ge") else "False")]))
+    return out
+
+
+contract(
+    "data:TimePoint._cmp", use_at_calls=False, opaque=["dby"],
+    requires=["normal24(self)", "normal24(other)"],
+    cases=cmp_cases(),
+    note="result <=> order of instants, for each literal op and each pair of shapes")
+
+
+# contract of _cmp for use at call sites (the operators inline to _cmp)
+def _cmp_result(E, st, env):
+    E.fresh_n += 1
+    return z3.Bool("cmp!%d" % E.fresh_n)
+
+
+_c = contract(
+    "data:TimePoint._cmp", opaque=["dby"],
+    cuts=[("this = self._end_of_day_normalised()", [
+        "local_instant(this) == old(local_instant(self))",
+        "local_instant(other) - local_instant(this) == old(instant(other) - instant(self))",
+        "time_normal(this) and time_normal(other)",
+        "valid_date(this) and valid_date(other)"]),
+        ("other_datetime = [", [
+         "date_key(my_date) == date_abs(this) and date_key(other_date) == date_abs(other)",
+         "use_lemma('cal.key.order', y1=my_date[0], m1=my_date[1], d1=my_date[2],"
+         " y2=other_date[0], m2=other_date[1], d2=other_date[2])"
+         " if len(my_date) == 3 else"
+         " use_lemma('ord.key.order', y1=my_date[0], n1=my_date[1],"
+         " y2=other_date[0], n2=other_date[1])"])],
+    applicable=lambda E, st, env: is_full_tp(E, st, env["self"]) and
+    is_full_tp(E, st, env["other"]) and isinstance(env["op"], str),
+    inline_fallback=True,
+    requires=["normal24(self)", "normal24(other)"],
+    result=_cmp_result,
+    ensures=["result == ((instant(self) == instant(other)) if op == 'eq' else"
+             " (instant(self) < instant(other)) if op == 'lt' else"
+             " (instant(self) <= instant(other)) if op == 'le' else"
+             " (instant(self) > instant(other)) if op == 'gt' else"
+             " (instant(self) >= instant(other)))"],
+    cases=cmp_cases(),
+    note="result <=> order of instants, for each literal op and each pair of shapes")
+
+
+# ---------------------------------------------------------------- __hash__
+def _hash_result(E, st, env):
+    from pyvc.values import HashV
+    E.fresh_n += 1
+    n = E.fresh_n
+    return HashV((z3.Int("hy!%d" % n), z3.Int("hm!%d" % n), z3.Int("hd!%d" % n),
+                  z3.Real("hh!%d" % n), z3.Real("hmi!%d" % n), z3.Real("hs!%d" % n)))
+
+
+contract(
+    "data:TimePoint.__hash__", opaque=["dby"],
+    applicable=lambda E, st, env: is_full_tp(E, st, env["self"]),
     inline_fallback=True,
     requires=["normal24(self)"],
-    result=add_result, fresh_result=True,
-    ensures=["fresh(result)"] + SAME_SHAPE + SAME_ZONE + [
-        "valid_date(result)",
-        "implies(d_exact(other), time_normal(result))",
-        "implies(d_exact(other), instant(result) == instant(self) - dlen(other))"],
-    cases=sub_cases(),
-    note="TimePoint - Duration == TimePoint + (-1 * Duration) by construction")
+    result=_hash_result,
+    ensures=[
+        "valid_cal(hash_elems(result)[0], hash_elems(result)[1], hash_elems(result)[2])",
+        "0 <= hash_elems(result)[3] and hash_elems(result)[3] < 24"
+        " and isint(hash_elems(result)[3])",
+        "0 <= hash_elems(result)[4] and hash_elems(result)[4] < 60"
+        " and isint(hash_elems(result)[4])",
+        "0 <= hash_elems(result)[5] and hash_elems(result)[5] < 60",
+        "86400 * cal_abs(hash_elems(result)[0], hash_elems(result)[1],"
+        " hash_elems(result)[2]) + 3600 * hash_elems(result)[3]"
+        " + 60 * hash_elems(result)[4] + hash_elems(result)[5]"
+        " == instant(self)",
+        "unchanged(self)"],
+    cases=tz_cases(False),
+    note="hash of the UTC calendar date and h/m/s: a function of the instant")
+
+contract("data:TimePoint._end_of_day_normalised", inline=True)
